@@ -314,7 +314,15 @@ func (fr *Frame) findLoops() {
 				}
 			}
 		}
-		if fr.contract != nil {
+		if fr.depth > 0 && fr.vc.contract != nil && li.spec == nil {
+			// a loop of an inlined callee or closure: the root contract may carry its invariant
+			// under the key "<function name>/<ordinal>" (names resolve in the callee's scope,
+			// old() refers to the callee's entry)
+			if ls, ok := fr.vc.contract.Loops[fr.fn.Name()+"/"+fmt.Sprint(ord)]; ok {
+				li.spec = ls
+			}
+		}
+		if fr.contract != nil && li.spec == nil {
 			if ls, ok := fr.contract.Loops[fmt.Sprint(ord)]; ok {
 				li.spec = ls
 			} else {
